@@ -65,7 +65,9 @@ def setup_quantizer(model_bytes, recipe, prior=None, use_after=None, use_fn=None
     try:
       qt.update_quantization_recipe(r['regex'], r['op'], cfg, r['algo'])
       accepted.append(r)
-    except ValueError as e:
+    except Exception as e:  # pylint: disable=broad-except
+      # ValueError is the documented refusal; the type of a refusal is C13's
+      # subject, for every other check the rule is simply not in the recipe
       refused.append((r, e))
   return qt, accepted, refused
 
